@@ -46,11 +46,11 @@ type RFn struct {
 
 var RNil = RV{}
 
-func RI(i int) RV       { return RV{K: rInt, I: i} }
-func RB(b bool) RV      { return RV{K: rBool, B: b} }
-func RS(s string) RV    { return RV{K: rStr, S: s} }
-func RF(f float64) RV   { return RV{K: rFloat, F: f} }
-func RA(a []RV) RV      { return RV{K: rArr, A: a} }
+func RI(i int) RV     { return RV{K: rInt, I: i} }
+func RB(b bool) RV    { return RV{K: rBool, B: b} }
+func RS(s string) RV  { return RV{K: rStr, S: s} }
+func RF(f float64) RV { return RV{K: rFloat, F: f} }
+func RA(a []RV) RV    { return RV{K: rArr, A: a} }
 
 // ---------- static resolution (own implementation of the documented scoping rule) ----------
 
@@ -210,8 +210,8 @@ func NewREval() *REval {
 	return ev
 }
 
-func ok(v RV) rres      { return rres{v: v} }
-func fail(e int) rres   { return rres{err: e} }
+func ok(v RV) rres    { return rres{v: v} }
+func fail(e int) rres { return rres{err: e} }
 
 // Run evaluates one top-level statement.
 func (ev *REval) Run(n node.Type) (RV, int) {
